@@ -96,6 +96,8 @@ type stats struct {
 	FieldShapes      map[string]int    `json:"field_shapes"`
 	Idlgen           map[string]int    `json:"idlgen"`
 	UntypedIntDouble int               `json:"double_constants_that_are_untyped_go_ints"`
+	HistoriesWithoutEdit int           `json:"histories_without_anything_to_edit"`
+	DecodesSkipped   int               `json:"decode_histories_skipped"`
 	Evaluations      int               `json:"evaluations"`
 	Distinct         int               `json:"distinct_nontrivial"`
 	Rule             string            `json:"rule"`
@@ -208,6 +210,44 @@ func structLikes(f *idlast.File) []*idlast.StructLike {
 	out = append(out, f.Unions...)
 	out = append(out, f.Exceptions...)
 	return out
+}
+
+// resolveStruct finds the struct-like a (possibly typedef'd, possibly included) type stands for: index of
+// its file in the program and its index in structs ++ unions ++ exceptions; -1 when it is none.
+func resolveStruct(prog idlast.Program, fi int, t *idlast.Type, depth int) (int, int) {
+	if depth > 8 || t == nil || fi < 0 || fi >= len(prog) {
+		return -1, -1
+	}
+	f := prog[fi].File
+	name := string(t.Name)
+	if t.Reference != nil {
+		idx := int(t.Reference.Index)
+		if idx < 0 || idx >= len(f.Includes) || f.Includes[idx].Ref == nil {
+			return -1, -1
+		}
+		fi = -1
+		for k, e := range prog {
+			if string(e.Filename) == string(*f.Includes[idx].Ref) {
+				fi = k
+			}
+		}
+		if fi < 0 {
+			return -1, -1
+		}
+		f = prog[fi].File
+		name = string(t.Reference.Name)
+	}
+	for _, td := range f.Typedefs {
+		if string(td.Alias) == name {
+			return resolveStruct(prog, fi, td.Type, depth+1)
+		}
+	}
+	for k, s := range structLikes(f) {
+		if string(s.Name) == name {
+			return fi, k
+		}
+	}
+	return -1, -1
 }
 
 func isBaseCat(c idlast.Category) bool { return c >= idlast.CatBool && c <= idlast.CatBinary }
@@ -747,6 +787,55 @@ func main() {
 		os.Exit(1)
 	}
 
+	// 5b. third round, in its own driver process: histories (in-place edits of one instance, then a fresh one)
+	var cmds3 []gendrv.Cmd
+	var pends3 []pend
+	for _, pd := range pends {
+		if pd.kind != "new" {
+			continue
+		}
+		shareable := false
+		for _, fd := range pd.as.Fields {
+			c := fd.Type.Category
+			if fd.Default != nil && (c == idlast.CatList || c == idlast.CatSet || c == idlast.CatMap || c == idlast.CatBinary || isStructCat(c)) {
+				shareable = true
+			}
+		}
+		if shareable {
+			var nm [][]interface{}
+			for _, f := range pd.s.Fields {
+				nm = append(nm, []interface{}{f.ID, f.Getter, f.IsSet})
+			}
+			nmj, _ := json.Marshal(nm)
+			for _, mode := range []string{"init", "new"} {
+				cmds3 = append(cmds3, gendrv.Cmd{Verb: "c06hist", Args: []string{pd.u.Key, pd.f.Filename, pd.s.IDL, mode, string(nmj)}})
+				q := pd
+				q.kind, q.tag = "c06hist", "history-"+mode
+				pends3 = append(pends3, q)
+			}
+		}
+		// decode a list of two elements that carry no fields, edit the first, look at the second
+		for _, fd := range pd.as.Fields {
+			if fd.Type.Category != idlast.CatList || fd.Type.ValueType == nil || !isStructCat(fd.Type.ValueType.Category) {
+				continue
+			}
+			xf, xs := resolveStruct(pd.u.Names.Program, pd.fi, fd.Type.ValueType, 0)
+			if xf < 0 {
+				continue
+			}
+			bs := []byte{0x0f, byte(uint16(fd.ID) >> 8), byte(uint16(fd.ID)), 0x0c, 0, 0, 0, 2, 0, 0, 0}
+			cmds3 = append(cmds3, gendrv.Cmd{Verb: "c06decode", Args: []string{pd.u.Key, pd.f.Filename, pd.s.IDL, fmt.Sprint(fd.ID), hex.EncodeToString(bs)}})
+			q := pd
+			q.kind, q.tag = "c06decode", "history-decode"
+			q.fi, q.ci = xf, xs // the ELEMENT struct: file index, struct-like index
+			pends3 = append(pends3, q)
+		}
+	}
+	outs3, err := b.Run(cmds3)
+	if err != nil {
+		fmt.Fprintln(os.Stderr, "run:", err)
+		os.Exit(1)
+	}
 	mark("driver runs")
 	// 6. cases, one writer per program
 	meta := struct {
@@ -982,6 +1071,78 @@ func main() {
 			desc := map[string]interface{}{"kind": "init", "script": pd.tag, "unit": pd.u.Key, "options": pd.u.Options, "file": pd.f.Filename,
 				"name": pd.s.IDL, "observed": json.RawMessage(outs2[i]), "file_text": fileText(pd.p, pd.f.Filename)}
 			addCase(pd.p, prog, term, desc, true, pd.u.Key+"|"+pd.f.Filename+"|i|"+pd.s.IDL+"|"+pd.tag)
+		}
+	}
+
+	for i, pd := range pends3 {
+		prog := pd.u.Names.Program
+		switch pd.kind {
+		case "c06hist":
+			var o struct {
+				A       json.RawMessage   `json:"a"`
+				BInit   json.RawMessage   `json:"b_init"`
+				BNew    json.RawMessage   `json:"b_new"`
+				Obj     json.RawMessage   `json:"obj"`
+				Mutated []int             `json:"mutated"`
+				Getters []json.RawMessage `json:"getters"`
+				IsSet   []json.RawMessage `json:"isset"`
+				Panic   bool              `json:"panic"`
+			}
+			json.Unmarshal(outs3[i], &o)
+			if len(o.Mutated) == 0 && !o.Panic {
+				st.HistoriesWithoutEdit++
+				continue
+			}
+			vn, vi, obj := parseVal(o.BNew), parseVal(o.BInit), parseVal(o.Obj)
+			if o.Panic {
+				vn, vi, obj = valgen.Bad(), valgen.Bad(), valgen.Bad()
+			}
+			term := fmt.Sprintf("(KHist %s %s %s %s)", coqfmt.ZF(int64(pd.fi)), coqfmt.ZF(int64(pd.s.Index)), vn.Coq(), vi.Coq())
+			desc := map[string]interface{}{"kind": "hist", "script": pd.tag, "unit": pd.u.Key, "options": pd.u.Options, "file": pd.f.Filename,
+				"name": pd.s.IDL, "observed": json.RawMessage(outs3[i]), "file_text": fileText(pd.p, pd.f.Filename)}
+			addCase(pd.p, prog, term, desc, true, pd.u.Key+"|"+pd.f.Filename+"|h|"+pd.s.IDL+"|"+pd.tag)
+			var gs, is []string
+			for _, g := range o.Getters {
+				var pair []json.RawMessage
+				json.Unmarshal(g, &pair)
+				var id int64
+				json.Unmarshal(pair[0], &id)
+				gs = append(gs, "("+coqfmt.ZF(id)+", "+parseVal(pair[1]).Coq()+")")
+			}
+			for _, g := range o.IsSet {
+				var pair []json.RawMessage
+				json.Unmarshal(g, &pair)
+				var id int64
+				var bb bool
+				json.Unmarshal(pair[0], &id)
+				json.Unmarshal(pair[1], &bb)
+				is = append(is, "("+coqfmt.ZF(id)+", "+coqfmt.Bool(bb)+")")
+			}
+			term = fmt.Sprintf("(KHistGet %s %s %s %s %s)", coqfmt.ZF(int64(pd.fi)), coqfmt.ZF(int64(pd.s.Index)), obj.Coq(), coqfmt.List(gs), coqfmt.List(is))
+			desc2 := map[string]interface{}{"kind": "hist-get", "script": pd.tag, "unit": pd.u.Key, "options": pd.u.Options, "file": pd.f.Filename,
+				"name": pd.s.IDL, "observed": json.RawMessage(outs3[i]), "file_text": fileText(pd.p, pd.f.Filename)}
+			addCase(pd.p, prog, term, desc2, true, pd.u.Key+"|"+pd.f.Filename+"|hg|"+pd.s.IDL+"|"+pd.tag)
+		case "c06decode":
+			var o struct {
+				Err     string          `json:"err"`
+				N       int             `json:"n"`
+				Mutated []int           `json:"mutated"`
+				E1      json.RawMessage `json:"e1"`
+				Panic   bool            `json:"panic"`
+			}
+			json.Unmarshal(outs3[i], &o)
+			if !o.Panic && (o.Err != "ok" || o.N != 2 || len(o.Mutated) == 0) {
+				st.DecodesSkipped++ // the element has required fields (Read refuses) or nothing to edit
+				continue
+			}
+			e1 := parseVal(o.E1)
+			if o.Panic {
+				e1 = valgen.Bad()
+			}
+			term := fmt.Sprintf("(KHist %s %s %s %s)", coqfmt.ZF(int64(pd.fi)), coqfmt.ZF(int64(pd.ci)), e1.Coq(), e1.Coq())
+			desc := map[string]interface{}{"kind": "hist", "script": pd.tag, "unit": pd.u.Key, "options": pd.u.Options, "file": pd.f.Filename,
+				"name": pd.s.IDL, "observed": json.RawMessage(outs3[i]), "file_text": fileText(pd.p, pd.f.Filename)}
+			addCase(pd.p, prog, term, desc, true, pd.u.Key+"|"+pd.f.Filename+"|hd|"+pd.s.IDL+"|"+fmt.Sprint(i))
 		}
 	}
 
